@@ -52,7 +52,7 @@ class _Abort(BaseException):
 
 
 class Scheduler:
-    def __init__(self, files, schedule, max_points=60000, real_timeout=30.0):
+    def __init__(self, files, schedule, max_points=60000, real_timeout=120.0):
         self.files = set(files)
         self.schedule = list(schedule)
         self.max_points = max_points
